@@ -469,7 +469,9 @@ func (in *Inst) Quiesce(timeout time.Duration) bool {
 		n := in.NTraces()
 		if busyGoroutines() == 0 && n == last {
 			stable++
-			if stable >= 2 {
+			// three quiet looks in a row, spread over at least 150 µs (seen once in 14000 thorough cases: two looks a few
+			// microseconds apart both found every goroutine parked while a task request was still on its way)
+			if stable >= 3 {
 				return true
 			}
 		} else {
@@ -481,6 +483,8 @@ func (in *Inst) Quiesce(timeout time.Duration) bool {
 		}
 		if stable == 0 {
 			time.Sleep(30 * time.Microsecond)
+		} else {
+			time.Sleep(75 * time.Microsecond)
 		}
 	}
 }
